@@ -2,8 +2,8 @@ SPECIFICATION GSpec
 VIEW GView
 CHECK_DEADLOCK FALSE
 CONSTANTS
-  MaxVals = 4
-  MaxSteps = 8
+  MaxVals = 3
+  MaxSteps = 6
   MaxDepth = 2
   EmitAll = TRUE
   CrossRemark = TRUE
